@@ -3,6 +3,7 @@ package checks
 import (
 	"encoding/json"
 	"fmt"
+	"math/big"
 	"sort"
 	"strings"
 	"sync"
@@ -139,7 +140,28 @@ func init() {
 							diffs = append(diffs, d)
 						}
 						if fmt.Sprint(a.Obs["supply"]) != fmt.Sprint(b.Obs["supply"]) {
-							c.Report("reimport/supply", fmt.Sprintf("exported after %s: total supply %v at export, %v on the re-imported node", hist, a.Obs["supply"], b.Obs["supply"]), rep)
+							// the recorded defect adds exactly the staked node tokens, the staked application tokens and the
+							// DAO balance a second time; any other difference is something else
+							sa, _ := new(big.Int).SetString(fmt.Sprint(a.Obs["supply"]), 10)
+							sb, _ := new(big.Int).SetString(fmt.Sprint(b.Obs["supply"]), 10)
+							cls := "other-difference"
+							if sa != nil && sb != nil {
+								sum := new(big.Int)
+								for _, kind := range []string{"nodes", "apps"} {
+									for _, rec := range obsRecords(a, kind) {
+										if t, ok := new(big.Int).SetString(rec["tokens"], 10); ok && rec["status"] == "2" {
+											sum.Add(sum, t)
+										}
+									}
+								}
+								if d, ok := new(big.Int).SetString(ba["module:dao"], 10); ok {
+									sum.Add(sum, d)
+								}
+								if new(big.Int).Sub(sb, sa).Cmp(sum) == 0 {
+									cls = "staked-totals-and-dao-counted-twice"
+								}
+							}
+							c.Report("reimport/supply/"+cls, fmt.Sprintf("exported after %s: total supply %v at export, %v on the re-imported node", hist, a.Obs["supply"], b.Obs["supply"]), rep)
 						}
 						na, nb := obsRecords(a, "nodes"), obsRecords(b, "nodes")
 						for _, m := range []map[string]map[string]string{na, nb} {
@@ -161,7 +183,32 @@ func init() {
 							return o
 						}
 						if d := cmpMaps("node", flat(na), flat(nb)); d != "" {
-							c.Report("reimport/nodes", fmt.Sprintf("exported after %s: %s", hist, d), rep)
+							// which fields differ decides the signature (a recorded finding about two fields does not
+							// cover a difference in a third)
+							fields := map[string]bool{}
+							for name, ra := range na {
+								rb := nb[name]
+								if rb == nil {
+									fields["record-missing"] = true
+									continue
+								}
+								for f, x := range ra {
+									if rb[f] != x {
+										fields[f] = true
+									}
+								}
+							}
+							for name := range nb {
+								if na[name] == nil {
+									fields["record-added"] = true
+								}
+							}
+							var fl []string
+							for f := range fields {
+								fl = append(fl, f)
+							}
+							sort.Strings(fl)
+							c.Report("reimport/nodes/"+strings.Join(fl, "+"), fmt.Sprintf("exported after %s: %s", hist, d), rep)
 						}
 						if d := cmpMaps("application", flat(obsRecords(a, "apps")), flat(obsRecords(b, "apps"))); d != "" {
 							c.Report("reimport/apps", fmt.Sprintf("exported after %s: %s", hist, d), rep)
